@@ -209,6 +209,44 @@ theorem run_inv (allow : Bool) (valid : String → Bool) : ∀ (ws : List Wake) 
       exact ih c1 c' (wake_inv _ c c1 w.now hinv hw) h
     · simp at h
 
+/-! ### everything the check sends is a probe -/
+
+def AllProbes (sent : List (Int × Pkt)) : Prop := ∀ x ∈ sent, ∃ s, x.2 = probePkt s
+
+theorem blockres_probes (env : Env) (st : PState) (r : PState × List Pkt × Outcome) (hr : BlockRes env st r) :
+    ∀ p ∈ r.2.1, ∃ s, p = probePkt s := by
+  cases hr <;> simp
+
+theorem after_probes (c : Cfg) (now : Int) (env : Env) (st : PState) (r : PState × List Pkt × Outcome) (hp : AllProbes c.sent)
+    (hr : BlockRes env st r) : AllProbes (c.after now r).sent := by
+  intro x hx
+  simp only [Cfg.after, List.mem_append, List.mem_map] at hx
+  rcases hx with hx | ⟨p, hp', rfl⟩
+  · exact hp x hx
+  · exact blockres_probes env st r hr p hp'
+
+theorem run_inv_probes (allow : Bool) (valid : String → Bool) : ∀ (ws : List Wake) (c c' : Cfg), Inv c → AllProbes c.sent →
+    c.run allow valid ws = some c' → Inv c' ∧ AllProbes c'.sent := by
+  intro ws
+  induction ws with
+  | nil => intro c c' hinv hp h; simp [Cfg.run] at h; rw [← h]; exact ⟨hinv, hp⟩
+  | cons w ws ih =>
+    intro c c' hinv hp h
+    simp only [Cfg.run] at h
+    split at h
+    · rename_i c1 hw
+      have hinv1 := wake_inv _ c c1 w.now hinv hw
+      obtain ⟨due, hph, h1, h2, rfl⟩ := wake_some _ c c1 w.now hw
+      simp only [Inv, hph] at hinv
+      obtain ⟨_, hdue, hlt, hi⟩ := hinv
+      have hr := resume_res { allow, valid, bucket := w.bucket } c.st w.now hi (by omega)
+      exact ih _ c' hinv1 (after_probes c w.now _ _ _ hp hr) h
+    · simp at h
+
+theorem start_probes (env : Env) (svc : Svc) (inst : String) (now : Int) : AllProbes (Cfg.start env svc inst now).sent := by
+  rw [start_eq]
+  exact after_probes _ now env _ _ (by intro x hx; simp at hx) (start_res env svc inst now)
+
 /-! ### the run without conflicts -/
 
 /-- invariant of a run in which no check ever sees the name in the cache; `t0` is the start of the registration -/
